@@ -218,7 +218,7 @@ theorem trans3_cmpBytes (a b c : List Nat) :
 
 /-! ## `keyLike`: pointer-free values of one shape -/
 
-/-- `a` and `b` are pointer-free (no nil, pointer, slice, map) and have the same shape: same
+/-- `a` and `b` are pointer-free (no nil, pointer, slice, map, pair) and have the same shape: same
 constructors, same float widths, same array / struct spines. Two values of one comparable
 (`canEqual`) type are `keyLike` (`keyLike_of_hasType`). -/
 def keyLike : Val → Val → Bool
@@ -234,13 +234,17 @@ def keyLike : Val → Val → Bool
   | _, _ => false
 
 theorem keyLike_symm (a b : Val) : keyLike a b = keyLike b a := by
-  fun_induction keyLike a b <;> simp_all [keyLike, eq_comm]
-  next a b h1 h2 h3 h4 h5 h6 h7 h8 h9 =>
-    cases b <;> cases a <;> simp_all [keyLike]
+  induction a generalizing b <;> cases b <;> simp [keyLike, Bool.beq_comm, *]
 
 theorem keyLike_trans {a b c : Val} (h1 : keyLike a b = true) (h2 : keyLike b c = true) :
     keyLike a c = true := by
-  fun_induction keyLike a b generalizing c <;> cases c <;> simp_all [keyLike]
+  induction a generalizing b c <;> cases b <;> simp [keyLike] at h1 <;> cases c <;>
+    simp [keyLike] at h2 ⊢
+  case flt.flt.flt => omega
+  case cplx.cplx.cplx => omega
+  case arr.arr.arr ih _ _ => exact ih h1 h2
+  case struct.struct.struct ih _ _ => exact ih h1 h2
+  case scons.scons.scons ih1 ih2 _ _ _ _ => exact ⟨ih1 h1.1 h2.1, ih2 h1.2 h2.2⟩
 
 theorem keyLike_left {a b : Val} (h : keyLike a b = true) : keyLike a a = true :=
   keyLike_trans h (by rw [keyLike_symm]; exact h)
@@ -258,44 +262,475 @@ theorem cmpKey_cplx (w a b w' c d : Nat) :
 
 /-- `cmpKey` only ever returns -1, 0 or +1 -/
 theorem tri_cmpKey (a b : Val) : Tri (cmpKey a b) := by
-  induction a generalizing b with
-  | scons h t ih1 ih2 =>
-    cases b <;> try (simp [cmpKey, Tri]; done)
-    rw [cmpKey_scons]; exact (ih1 _).lex (ih2 _)
-  | cplx w x y =>
-    cases b <;> try (simp [cmpKey, Tri]; done)
-    rw [cmpKey_cplx]; exact (tri_cmpFlt ..).lex (tri_cmpFlt ..)
-  | bool x => cases b <;> simp [cmpKey, tri_zero, tri_cmpBool]
-  | int x => cases b <;> simp [cmpKey, tri_zero, tri_cmpInt]
-  | flt w x => cases b <;> simp [cmpKey, tri_zero, tri_cmpFlt]
-  | str x => cases b <;> simp [cmpKey, tri_zero, tri_cmpBytes]
-  | arr x ih => cases b <;> simp [cmpKey, tri_zero, ih]
-  | struct x ih => cases b <;> simp [cmpKey, tri_zero, ih]
-  | _ => simp [cmpKey, tri_zero]
+  induction a generalizing b <;> cases b <;>
+    simp only [cmpKey, tri_zero, tri_cmpBool, tri_cmpInt, tri_cmpFlt, tri_cmpBytes, *]
+  case cplx.cplx => exact cplx_eq_lex .. ▸ (tri_cmpFlt ..).lex (tri_cmpFlt ..)
+  case scons.scons ih1 ih2 _ _ => exact (ih1 _).lex (ih2 _)
 
 /-- Go `==` is symmetric on values of one shape -/
 theorem goEq_symm_of_keyLike {a b : Val} (h : keyLike a b = true) : goEq a b = goEq b a := by
-  fun_induction keyLike a b <;> simp_all [goEq, Bool.beq_comm, fltEq_symm]
-  all_goals simp [eq_comm]
+  induction a generalizing b <;> cases b <;> simp [keyLike] at h <;> simp only [goEq]
+  case bool.bool => exact Bool.beq_comm
+  case int.int => exact Bool.beq_comm
+  case flt.flt => subst h; exact fltEq_symm ..
+  case cplx.cplx w a b _ c d => subst h; rw [fltEq_symm w a c, fltEq_symm w b d]
+  case str.str => exact Bool.beq_comm
+  case arr.arr ih _ => exact ih h
+  case struct.struct ih _ => exact ih h
+  case scons.scons ih1 ih2 _ _ => rw [ih1 h.1, ih2 h.2]
 
 /-- the equivalence of the derived key order is Go `==` -/
 theorem cmpKey_eq_zero_iff {a b : Val} (h : keyLike a b = true) :
     cmpKey a b = 0 ↔ goEq a b = true := by
-  fun_induction keyLike a b <;>
-    simp_all [goEq, cmpKey_scons, cmpKey_cplx, lex_eq_zero, cmpBool_eq_zero, cmpInt_eq_zero, cmpFlt_eq_zero,
-      cmpBytes_eq_zero]
-  all_goals simp [cmpKey, cmpBool_eq_zero, cmpInt_eq_zero, cmpFlt_eq_zero, cmpBytes_eq_zero, *]
+  induction a generalizing b <;> cases b <;> simp [keyLike] at h <;> simp only [goEq]
+  case bool.bool => simp [cmpKey, cmpBool_eq_zero]
+  case int.int => simp [cmpKey, cmpInt_eq_zero]
+  case flt.flt => simp [cmpKey, cmpFlt_eq_zero]
+  case cplx.cplx => simp [cmpKey_cplx, lex_eq_zero, cmpFlt_eq_zero]
+  case str.str => simp [cmpKey, cmpBytes_eq_zero]
+  case arr.arr ih _ => simpa [cmpKey] using ih h
+  case struct.struct ih _ => simpa [cmpKey] using ih h
+  case snil.snil => simp [cmpKey]
+  case scons.scons ih1 ih2 _ _ => simp [cmpKey_scons, lex_eq_zero, ih1 h.1, ih2 h.2]
 
 theorem cmpKey_antisymm {a b : Val} (h : keyLike a b = true) (ha : nanFree a = true)
     (hb : nanFree b = true) : cmpKey b a = - cmpKey a b := by
-  fun_induction keyLike a b <;>
-    simp_all [nanFree, cmpKey_scons, cmpKey_cplx, lex_neg, cmpFlt_antisymm]
-  all_goals simp [cmpKey, cmpBool_antisymm, cmpInt_antisymm, cmpBytes_antisymm, cmpFlt_antisymm, *]
+  induction a generalizing b <;> cases b <;> simp [keyLike] at h
+  case bool.bool => simp only [cmpKey]; exact cmpBool_antisymm ..
+  case int.int => simp only [cmpKey]; exact cmpInt_antisymm ..
+  case flt.flt =>
+    subst h; simp [nanFree] at ha hb; simp [cmpKey, cmpFlt_antisymm ha hb]
+  case cplx.cplx =>
+    subst h; simp [nanFree] at ha hb
+    simp [cmpKey_cplx, cmpFlt_antisymm ha.1 hb.1, cmpFlt_antisymm ha.2 hb.2, lex_neg]
+  case str.str => simp only [cmpKey]; exact cmpBytes_antisymm ..
+  case arr.arr ih _ => simpa [cmpKey] using ih h (by simpa [nanFree] using ha) (by simpa [nanFree] using hb)
+  case struct.struct ih _ => simpa [cmpKey] using ih h (by simpa [nanFree] using ha) (by simpa [nanFree] using hb)
+  case snil.snil => simp [cmpKey]
+  case scons.scons ih1 ih2 _ _ =>
+    simp [nanFree] at ha hb
+    rw [cmpKey_scons, cmpKey_scons, ih1 h.1 ha.1 hb.1, ih2 h.2 ha.2 hb.2, lex_neg]
 
 theorem trans3_cmpKey {a b c : Val} (h1 : keyLike a b = true) (h2 : keyLike b c = true)
     (ha : nanFree a = true) (hb : nanFree b = true) (hc : nanFree c = true) :
     Trans3 (cmpKey a b) (cmpKey b c) (cmpKey a c) := by
-  fun_induction keyLike a b generalizing c <;> cases c <;> simp_all [keyLike, nanFree]
-  all_goals sorry
+  induction a generalizing b c <;> cases b <;> simp [keyLike] at h1 <;> cases c <;>
+    simp [keyLike] at h2
+  case bool.bool.bool => exact trans3_cmpBool ..
+  case int.int.int => exact trans3_cmpInt ..
+  case flt.flt.flt =>
+    subst h1; subst h2; simp [nanFree] at ha hb hc; exact trans3_cmpFlt ha hb hc
+  case cplx.cplx.cplx =>
+    subst h1; subst h2; simp [nanFree] at ha hb hc
+    simp only [cmpKey_cplx]
+    exact Trans3.lex (tri_cmpFlt ..) (tri_cmpFlt ..) (trans3_cmpFlt ha.1 hb.1 hc.1)
+      (fun _ _ => trans3_cmpFlt ha.2 hb.2 hc.2)
+  case str.str.str => exact trans3_cmpBytes ..
+  case arr.arr.arr ih _ _ =>
+    simp [nanFree] at ha hb hc; simpa [cmpKey] using ih h1 h2 ha hb hc
+  case struct.struct.struct ih _ _ =>
+    simp [nanFree] at ha hb hc; simpa [cmpKey] using ih h1 h2 ha hb hc
+  case snil.snil.snil => simpa [cmpKey] using Trans3.zero
+  case scons.scons.scons ih1 ih2 _ _ _ _ =>
+    simp [nanFree] at ha hb hc
+    simp only [cmpKey_scons]
+    exact Trans3.lex (tri_cmpKey ..) (tri_cmpKey ..) (ih1 h1.1 h2.1 ha.1 hb.1 hc.1)
+      (fun _ _ => ih2 h1.2 h2.2 ha.2 hb.2 hc.2)
+
+/-! ## key sets -/
+
+/-- a set of keys on which `cmpKey` is a strict total order modulo `goEq`: pairwise `keyLike`,
+NaN-free -/
+structure KeySet (P : Val → Prop) : Prop where
+  like : ∀ a b, P a → P b → keyLike a b = true
+  nan : ∀ a, P a → nanFree a = true
+
+namespace KeySet
+variable {P : Val → Prop} (hP : KeySet P)
+include hP
+
+theorem eq_iff {a b : Val} (ha : P a) (hb : P b) : cmpKey a b = 0 ↔ goEq a b = true :=
+  cmpKey_eq_zero_iff (hP.like a b ha hb)
+
+theorem antisymm {a b : Val} (ha : P a) (hb : P b) : cmpKey b a = - cmpKey a b :=
+  cmpKey_antisymm (hP.like a b ha hb) (hP.nan a ha) (hP.nan b hb)
+
+theorem trans3 {a b c : Val} (ha : P a) (hb : P b) (hc : P c) :
+    Trans3 (cmpKey a b) (cmpKey b c) (cmpKey a c) :=
+  trans3_cmpKey (hP.like a b ha hb) (hP.like b c hb hc) (hP.nan a ha) (hP.nan b hb) (hP.nan c hc)
+
+theorem goEq_symm {a b : Val} (ha : P a) (hb : P b) : goEq a b = goEq b a :=
+  goEq_symm_of_keyLike (hP.like a b ha hb)
+
+theorem goEq_refl {a : Val} (ha : P a) : goEq a a = true :=
+  (hP.eq_iff ha ha).1 (by have := hP.antisymm ha ha; omega)
+
+theorem goEq_trans {a b c : Val} (ha : P a) (hb : P b) (hc : P c) (h1 : goEq a b = true)
+    (h2 : goEq b c = true) : goEq a c = true := by
+  rw [← hP.eq_iff ha hc]
+  rw [← hP.eq_iff ha hb] at h1
+  rw [← hP.eq_iff hb hc] at h2
+  rw [(hP.trans3 ha hb hc).eqL h1, h2]
+
+end KeySet
+
+/-! ## entry spines -/
+
+/-- key of an entry (`snil` for a non-entry) -/
+def ekey : Val → Val
+  | .pair k _ => k
+  | _ => .snil
+
+/-- value of an entry (`snil` for a non-entry) -/
+def evalue : Val → Val
+  | .pair _ v => v
+  | _ => .snil
+
+/-- an `snil`-terminated spine of `pair`s -/
+def isEntries : Val → Bool
+  | .snil => true
+  | .scons (.pair _ _) r => isEntries r
+  | _ => false
+
+theorem insertEntry_pair_scons (k v k' v' t : Val) :
+    insertEntry (.pair k v) (.scons (.pair k' v') t) =
+      if cmpKey k k' ≤ 0 then .scons (.pair k v) (.scons (.pair k' v') t)
+      else .scons (.pair k' v') (insertEntry (.pair k v) t) := by
+  simp [insertEntry]
+
+theorem insertEntry_snil (e : Val) : insertEntry e .snil = .scons e .snil := by
+  simp [insertEntry]
+
+theorem insertEntry_of_not_pair_left (e h t : Val) (he : ∀ k v, e ≠ .pair k v) :
+    insertEntry e (.scons h t) = .scons e (.scons h t) := by
+  cases e <;> simp [insertEntry] <;> exact absurd rfl (he _ _)
+
+theorem insertEntry_of_not_pair_right (e h t : Val) (hh : ∀ k v, h ≠ .pair k v) :
+    insertEntry e (.scons h t) = .scons e (.scons h t) := by
+  cases e <;> simp [insertEntry]
+  cases h <;> simp
+  exact absurd rfl (hh _ _)
+
+/-- inserting an entry yields a permutation of "cons" -/
+theorem insertEntry_perm (e s : Val) : (insertEntry e s).toList.Perm (e :: s.toList) := by
+  induction s with
+  | scons h t _ iht =>
+    by_cases he : ∃ k v, e = .pair k v
+    · obtain ⟨k, v, rfl⟩ := he
+      by_cases hh : ∃ k' v', h = .pair k' v'
+      · obtain ⟨k', v', rfl⟩ := hh
+        rw [insertEntry_pair_scons]
+        split
+        · exact List.Perm.refl _
+        · simp only [toList]
+          exact (List.Perm.cons _ iht).trans (List.Perm.swap _ _ _)
+      · rw [insertEntry_of_not_pair_right]
+        · exact List.Perm.refl _
+        · intro k' v' e; exact hh ⟨k', v', e⟩
+    · rw [insertEntry_of_not_pair_left]
+      · exact List.Perm.refl _
+      · intro k' v' h; exact he ⟨k', v', h⟩
+  | _ => simp [insertEntry, toList]
+
+/-- `sortEntries` permutes the entries -/
+theorem sortEntries_perm (es : Val) : (sortEntries es).toList.Perm es.toList := by
+  induction es with
+  | scons e r _ ihr =>
+    simp only [sortEntries, toList]
+    exact (insertEntry_perm _ _).trans (List.Perm.cons _ ihr)
+  | _ => simp [sortEntries]
+
+theorem mem_sortEntries {e es : Val} : e ∈ (sortEntries es).toList ↔ e ∈ es.toList :=
+  (sortEntries_perm es).mem_iff
+
+theorem mem_insertEntry {a e s : Val} : a ∈ (insertEntry e s).toList ↔ a = e ∨ a ∈ s.toList := by
+  rw [(insertEntry_perm e s).mem_iff]; simp
+
+theorem slen_insertEntry (e s : Val) : (insertEntry e s).slen = s.slen + 1 := by
+  simp [(insertEntry_perm e s).length_eq]
+
+/-- `sortEntries` preserves the number of entries -/
+theorem slen_sortEntries (es : Val) : (sortEntries es).slen = es.slen := by
+  simp [(sortEntries_perm es).length_eq]
+
+theorem isEntries_insertEntry (k v s : Val) :
+    isEntries (insertEntry (.pair k v) s) = isEntries s := by
+  induction s with
+  | scons h t _ iht =>
+    cases h <;> try (simp [insertEntry, isEntries]; done)
+    rw [insertEntry_pair_scons]; split <;> simp [isEntries, iht]
+  | _ => simp [insertEntry, isEntries]
+
+theorem isEntries_sortEntries {es : Val} (h : isEntries es = true) :
+    isEntries (sortEntries es) = true := by
+  induction es with
+  | scons e r _ ihr =>
+    cases e <;> simp [isEntries] at h
+    simp only [sortEntries, isEntries_insertEntry, ihr h]
+  | _ => simp_all [sortEntries, isEntries]
+
+theorem exists_pair_of_mem {s e : Val} (hs : isEntries s = true) (he : e ∈ s.toList) :
+    ∃ k v, e = .pair k v := by
+  induction s with
+  | scons h t _ iht =>
+    cases h <;> simp [isEntries] at hs
+    simp only [toList, List.mem_cons] at he
+    rcases he with rfl | he
+    · exact ⟨_, _, rfl⟩
+    · exact iht hs he
+  | _ => simp [toList] at he
+
+/-- the spine consists of pairs whose keys all lie in `P` -/
+def KeysIn (P : Val → Prop) (s : Val) : Prop :=
+  isEntries s = true ∧ ∀ e ∈ s.toList, P (ekey e)
+
+theorem KeysIn.snil {P : Val → Prop} : KeysIn P .snil := by simp [KeysIn, isEntries, toList]
+
+theorem keysIn_scons {P : Val → Prop} {k v r : Val} :
+    KeysIn P (.scons (.pair k v) r) ↔ P k ∧ KeysIn P r := by
+  simp only [KeysIn, isEntries, toList, List.mem_cons, forall_eq_or_imp, ekey]
+  constructor
+  · rintro ⟨h1, h2, h3⟩; exact ⟨h2, h1, h3⟩
+  · rintro ⟨h1, h2, h3⟩; exact ⟨h2, h1, h3⟩
+
+theorem KeysIn.insertEntry {P : Val → Prop} {k v s : Val} (hk : P k) (hs : KeysIn P s) :
+    KeysIn P (insertEntry (.pair k v) s) := by
+  refine ⟨by rw [isEntries_insertEntry]; exact hs.1, ?_⟩
+  intro e he
+  rcases mem_insertEntry.1 he with rfl | he
+  · exact hk
+  · exact hs.2 e he
+
+theorem KeysIn.sortEntries {P : Val → Prop} {s : Val} (hs : KeysIn P s) :
+    KeysIn P (sortEntries s) :=
+  ⟨isEntries_sortEntries hs.1, fun e he => hs.2 e (mem_sortEntries.1 he)⟩
+
+/-! ## sortedness -/
+
+def keyLe (e e' : Val) : Prop := cmpKey (ekey e) (ekey e') ≤ 0
+def keyLt (e e' : Val) : Prop := cmpKey (ekey e) (ekey e') = -1
+def keyEq (e e' : Val) : Prop := goEq (ekey e) (ekey e') = true
+
+theorem sorted_insertEntry {P : Val → Prop} (hP : KeySet P) {k v s : Val} (hk : P k)
+    (hs : KeysIn P s) (hsorted : s.toList.Pairwise keyLe) :
+    (insertEntry (.pair k v) s).toList.Pairwise keyLe := by
+  induction s with
+  | scons h t _ iht =>
+    obtain ⟨k', v', rfl⟩ : ∃ k' v', h = .pair k' v' := exists_pair_of_mem hs.1 (by simp [toList])
+    obtain ⟨hk', ht⟩ := keysIn_scons.1 hs
+    simp only [toList, List.pairwise_cons] at hsorted
+    rw [insertEntry_pair_scons]
+    split
+    · rename_i hle
+      simp only [toList, List.pairwise_cons, List.mem_cons, forall_eq_or_imp]
+      refine ⟨⟨hle, ?_⟩, hsorted⟩
+      intro a ha
+      have h1 := hsorted.1 a ha
+      exact (hP.trans3 hk hk' (ht.2 a ha)).le (tri_cmpKey ..) (tri_cmpKey ..) hle h1
+    · rename_i hgt
+      simp only [toList, List.pairwise_cons]
+      refine ⟨?_, iht ht hsorted.2⟩
+      intro a ha
+      rcases mem_insertEntry.1 ha with rfl | ha
+      · have := hP.antisymm hk hk'
+        simp only [keyLe, ekey]; omega
+      · exact hsorted.1 a ha
+  | _ => simp [insertEntry, toList]
+
+/-- `sortEntries` sorts by key -/
+theorem sorted_sortEntries {P : Val → Prop} (hP : KeySet P) {s : Val} (hs : KeysIn P s) :
+    (sortEntries s).toList.Pairwise keyLe := by
+  induction s with
+  | scons e r _ ihr =>
+    obtain ⟨k, v, rfl⟩ : ∃ k v, e = .pair k v := exists_pair_of_mem hs.1 (by simp [toList])
+    obtain ⟨hk, hr⟩ := keysIn_scons.1 hs
+    exact sorted_insertEntry hP hk hr.sortEntries (ihr hr)
+  | _ => simp [sortEntries, toList]
+
+theorem keyFresh_iff {k s : Val} (hs : isEntries s = true) :
+    keyFresh k s = true ↔ ∀ e ∈ s.toList, goEq k (ekey e) = false := by
+  induction s with
+  | scons h t _ iht =>
+    cases h <;> simp [isEntries] at hs
+    simp [keyFresh, toList, ekey, iht hs]
+  | _ => simp [keyFresh, toList]
+
+theorem strictSorted_insertEntry {P : Val → Prop} (hP : KeySet P) {k v s : Val} (hk : P k)
+    (hs : KeysIn P s) (hfresh : ∀ e ∈ s.toList, goEq k (ekey e) = false)
+    (hsorted : s.toList.Pairwise keyLt) :
+    (insertEntry (.pair k v) s).toList.Pairwise keyLt := by
+  induction s with
+  | scons h t _ iht =>
+    obtain ⟨k', v', rfl⟩ : ∃ k' v', h = .pair k' v' := exists_pair_of_mem hs.1 (by simp [toList])
+    obtain ⟨hk', ht⟩ := keysIn_scons.1 hs
+    simp only [toList, List.pairwise_cons] at hsorted
+    simp only [toList, List.mem_cons, forall_eq_or_imp, ekey] at hfresh
+    have hne : cmpKey k k' ≠ 0 := fun h0 => by
+      have := (hP.eq_iff hk hk').1 h0; simp [hfresh.1] at this
+    rw [insertEntry_pair_scons]
+    split
+    · rename_i hle
+      have hlt : cmpKey k k' = -1 := by
+        rcases tri_cmpKey k k' with h | h | h <;> omega
+      simp only [toList, List.pairwise_cons, List.mem_cons, forall_eq_or_imp]
+      refine ⟨⟨hlt, ?_⟩, hsorted⟩
+      intro a ha
+      exact (hP.trans3 hk hk' (ht.2 a ha)).lt hlt (hsorted.1 a ha)
+    · rename_i hgt
+      simp only [toList, List.pairwise_cons]
+      refine ⟨?_, iht ht hfresh.2 hsorted.2⟩
+      intro a ha
+      rcases mem_insertEntry.1 ha with rfl | ha
+      · have := hP.antisymm hk hk'
+        have := tri_cmpKey k k'
+        simp only [keyLt, ekey]; unfold Tri at *; omega
+      · exact hsorted.1 a ha
+  | _ => simp [insertEntry, toList]
+
+/-- with pairwise distinct keys the sorted spine is strictly increasing -/
+theorem strictSorted_sortEntries {P : Val → Prop} (hP : KeySet P) {s : Val} (hs : KeysIn P s)
+    (hd : keysDistinct s = true) : (sortEntries s).toList.Pairwise keyLt := by
+  induction s with
+  | scons e r _ ihr =>
+    obtain ⟨k, v, rfl⟩ : ∃ k v, e = .pair k v := exists_pair_of_mem hs.1 (by simp [toList])
+    obtain ⟨hk, hr⟩ := keysIn_scons.1 hs
+    simp only [keysDistinct, Bool.and_eq_true] at hd
+    refine strictSorted_insertEntry hP hk hr.sortEntries ?_ (ihr hr hd.2)
+    intro e he
+    exact (keyFresh_iff hr.1).1 hd.1 e (mem_sortEntries.1 he)
+  | _ => simp [sortEntries, toList]
+
+/-! ## uniqueness of the sorted key sequence -/
+
+/-- every key of `l1` occurs (under Go `==`) in `l2` -/
+def KeysSub (l1 l2 : List Val) : Prop := ∀ e ∈ l1, ∃ e' ∈ l2, keyEq e e'
+
+/-- position-wise equal keys (under Go `==`), same length -/
+def keysAgreeL : List Val → List Val → Prop
+  | [], [] => True
+  | e :: r, e' :: s => keyEq e e' ∧ keysAgreeL r s
+  | _, _ => False
+
+/-- the two entry spines have the same length and position-wise `==` keys -/
+def keysAgree (s s' : Val) : Prop := keysAgreeL s.toList s'.toList
+
+section unique
+variable {P : Val → Prop} (hP : KeySet P)
+include hP
+
+/-- heads agree: the tails still satisfy the inclusion -/
+theorem KeysSub.tail_of_eq {e1 e2 : Val} {t1 t2 : List Val}
+    (p1 : ∀ e ∈ e1 :: t1, P (ekey e)) (p2 : ∀ e ∈ e2 :: t2, P (ekey e))
+    (s1 : (e1 :: t1).Pairwise keyLt) (heq : keyEq e1 e2)
+    (sub : KeysSub (e1 :: t1) (e2 :: t2)) : KeysSub t1 t2 := by
+  intro e he
+  obtain ⟨e', he', hee'⟩ := sub e (List.mem_cons_of_mem _ he)
+  rcases List.mem_cons.1 he' with rfl | he'
+  · exfalso
+    have h1 : keyLt e1 e := (List.pairwise_cons.1 s1).1 e he
+    have pe1 := p1 e1 (by simp)
+    have pe := p1 e (List.mem_cons_of_mem _ he)
+    have pe' := p2 e' (by simp)
+    have h2 : cmpKey (ekey e1) (ekey e') = 0 := (hP.eq_iff pe1 pe').2 heq
+    have h3 : cmpKey (ekey e) (ekey e') = 0 := (hP.eq_iff pe pe').2 hee'
+    have h4 := hP.antisymm pe pe'
+    have h5 := (hP.trans3 pe1 pe' pe).eqL h2
+    simp only [keyLt] at h1
+    omega
+  · exact ⟨e', he', hee'⟩
+
+/-- heads differ: every key of the first list occurs in the tail of the second -/
+theorem KeysSub.skip_of_ne {e1 e2 : Val} {t1 t2 : List Val}
+    (p1 : ∀ e ∈ e1 :: t1, P (ekey e)) (p2 : ∀ e ∈ e2 :: t2, P (ekey e))
+    (s1 : (e1 :: t1).Pairwise keyLt) (s2 : (e2 :: t2).Pairwise keyLt) (hne : ¬ keyEq e1 e2)
+    (sub : KeysSub (e1 :: t1) (e2 :: t2)) : KeysSub (e1 :: t1) t2 := by
+  have pe1 := p1 e1 (by simp)
+  have pe2 := p2 e2 (by simp)
+  -- the match of `e1` lies in the tail, hence `e2 < e1`
+  obtain ⟨m, hm, h1m⟩ := sub e1 (by simp)
+  have hm2 : m ∈ t2 := by
+    rcases List.mem_cons.1 hm with rfl | hm
+    · exact absurd h1m hne
+    · exact hm
+  have pm := p2 m (List.mem_cons_of_mem _ hm2)
+  have h21 : cmpKey (ekey e2) (ekey e1) = -1 := by
+    have a1 : keyLt e2 m := (List.pairwise_cons.1 s2).1 m hm2
+    have a2 : cmpKey (ekey e1) (ekey m) = 0 := (hP.eq_iff pe1 pm).2 h1m
+    have a3 := hP.antisymm pe1 pm
+    have a4 := (hP.trans3 pe2 pm pe1).eqR (by omega)
+    simp only [keyLt] at a1; omega
+  intro e he
+  obtain ⟨e', he', hee'⟩ := sub e he
+  rcases List.mem_cons.1 he' with rfl | he'
+  · exfalso
+    have pe := p1 e he
+    have h2e : cmpKey (ekey e') (ekey e) = -1 := by
+      rcases List.mem_cons.1 he with rfl | he
+      · exact h21
+      · have : keyLt e1 e := (List.pairwise_cons.1 s1).1 e he
+        exact (hP.trans3 pe2 pe1 pe).lt h21 this
+    have h3 : cmpKey (ekey e) (ekey e') = 0 := (hP.eq_iff pe pe2).2 hee'
+    have h4 := hP.antisymm pe pe2
+    omega
+  · exact ⟨e', he', hee'⟩
+
+/-- pigeonhole for strictly sorted key lists -/
+theorem length_le_of_keysSub (l1 l2 : List Val)
+    (p1 : ∀ e ∈ l1, P (ekey e)) (p2 : ∀ e ∈ l2, P (ekey e))
+    (s1 : l1.Pairwise keyLt) (s2 : l2.Pairwise keyLt) (sub : KeysSub l1 l2) :
+    l1.length ≤ l2.length := by
+  induction l2 generalizing l1 with
+  | nil =>
+    cases l1 with
+    | nil => simp
+    | cons e t => obtain ⟨_, h, _⟩ := sub e (by simp); simp at h
+  | cons e2 t2 ih =>
+    cases l1 with
+    | nil => simp
+    | cons e1 t1 =>
+      by_cases heq : keyEq e1 e2
+      · have := ih t1 (fun e he => p1 e (List.mem_cons_of_mem _ he))
+          (fun e he => p2 e (List.mem_cons_of_mem _ he)) (List.pairwise_cons.1 s1).2
+          (List.pairwise_cons.1 s2).2 (KeysSub.tail_of_eq hP p1 p2 s1 heq sub)
+        simp only [List.length_cons]; omega
+      · have := ih (e1 :: t1) p1 (fun e he => p2 e (List.mem_cons_of_mem _ he)) s1
+          (List.pairwise_cons.1 s2).2 (KeysSub.skip_of_ne hP p1 p2 s1 s2 heq sub)
+        simp only [List.length_cons] at *; omega
+
+/-- two strictly sorted key lists of the same length, the keys of the first occurring in the
+second, agree position-wise -/
+theorem keysAgreeL_of_strictSorted (l1 l2 : List Val)
+    (p1 : ∀ e ∈ l1, P (ekey e)) (p2 : ∀ e ∈ l2, P (ekey e))
+    (s1 : l1.Pairwise keyLt) (s2 : l2.Pairwise keyLt) (hlen : l1.length = l2.length)
+    (sub : KeysSub l1 l2) : keysAgreeL l1 l2 := by
+  induction l1 generalizing l2 with
+  | nil => cases l2 <;> simp_all [keysAgreeL]
+  | cons e1 t1 ih =>
+    cases l2 with
+    | nil => simp at hlen
+    | cons e2 t2 =>
+      by_cases heq : keyEq e1 e2
+      · refine ⟨heq, ih t2 (fun e he => p1 e (List.mem_cons_of_mem _ he))
+          (fun e he => p2 e (List.mem_cons_of_mem _ he)) (List.pairwise_cons.1 s1).2
+          (List.pairwise_cons.1 s2).2 (by simpa using hlen) (KeysSub.tail_of_eq hP p1 p2 s1 heq sub)⟩
+      · exfalso
+        have := length_le_of_keysSub hP (e1 :: t1) t2 p1 (fun e he => p2 e (List.mem_cons_of_mem _ he)) s1
+          (List.pairwise_cons.1 s2).2 (KeysSub.skip_of_ne hP p1 p2 s1 s2 heq sub)
+        simp only [List.length_cons] at *; omega
+
+/-- **Key uniqueness.** Two maps (entry spines) with pairwise distinct keys from one key set, the
+same number of entries, and every key of the first present in the second, have sorted entry
+sequences that agree position-wise on keys. -/
+theorem sortEntries_keysAgree {xs ys : Val} (hx : KeysIn P xs) (hy : KeysIn P ys)
+    (dx : keysDistinct xs = true) (dy : keysDistinct ys = true) (hlen : xs.slen = ys.slen)
+    (sub : KeysSub xs.toList ys.toList) : keysAgree (sortEntries xs) (sortEntries ys) := by
+  apply keysAgreeL_of_strictSorted hP _ _ hx.sortEntries.2 hy.sortEntries.2
+    (strictSorted_sortEntries hP hx dx) (strictSorted_sortEntries hP hy dy)
+  · rw [(sortEntries_perm xs).length_eq, (sortEntries_perm ys).length_eq]; simpa using hlen
+  · intro e he
+    obtain ⟨e', he', h⟩ := sub e (mem_sortEntries.1 he)
+    exact ⟨e', mem_sortEntries.2 he', h⟩
+
+end unique
 
 end Goderive
